@@ -1397,9 +1397,18 @@ class ToTimestamp(Elemwise):
     _keeps_index = False
 
     def _divisions(self):
-        return tuple(
-            pd.Index(self.frame.divisions).to_timestamp(freq=self.freq, how=self.how)
-        )
+        if not self.frame.known_divisions:
+            return self.frame.divisions
+        divisions = pd.Index(self.frame.divisions)
+        if self.freq is not None:
+            # A coarser target frequency maps several consecutive periods to one
+            # timestamp: the last value of a partition can then be equal to the
+            # first one of the next, which sorted divisions can't express.
+            probe = pd.period_range(divisions[0], periods=64, freq=divisions.freq)
+            stamps = probe.to_timestamp(freq=self.freq, how=self.how)
+            if not stamps.is_unique:
+                return (None,) * len(self.frame.divisions)
+        return tuple(divisions.to_timestamp(freq=self.freq, how=self.how))
 
 
 class CombineSeries(Elemwise):
